@@ -102,12 +102,11 @@ def build_region(lat_case):
         reg = regions.CartesianGrid2D.from_origins(origins, dh=dhf)
         if ctor == "from_dict":
             reg = regions.CartesianGrid2D.from_dict(reg.to_dict())
+    model = lattice.Lattice.from_decimal(lat_case["ax"], lat_case["ay"], lat_case["dh"], lat_case["nx"], lat_case["ny"], cells, lat_case.get("flags"))
     if ctor == "midpoint":
-        model = lattice.Lattice.from_origins(origins, dhf)
-        # cell index by (i,j): rebuild from decimal knowledge so holes keep their place
-        model = _model_with_edges(model, lat_case, origins)
-    else:
-        model = lattice.Lattice.from_decimal(lat_case["ax"], lat_case["ay"], lat_case["dh"], lat_case["nx"], lat_case["ny"], cells, lat_case.get("flags"))
+        # midpoint-derived origins are floats a few ulps off the decimal lattice: both the lattice lines and the float origins are
+        # legitimate readings of "the cell boundary"; an answer is a violation only if it contradicts both
+        model = lattice.UnionLattice([model, _model_with_edges(model, lat_case, origins)])
     return reg, model, origins
 
 
@@ -320,6 +319,7 @@ def ex_shipped(ctx, name, arg=None, seed=0):
         ok, idx, tb = ctx.call(reg.get_index_of, origins[k, 0] + off, origins[k, 1] + off)
         if not ok or not numpy.array_equal(numpy.asarray(idx), k):
             ctx.violate("a cell's own %s is not attributed to that cell" % lab, rc, observed=repr(idx)[:200], tags=dict(tags, clause="own-" + lab))
+    ctx.count(6000)
     ctx.nt_bulk(digest(("shipped", name, arg, seed)), nt + 6000)
 
 
@@ -349,6 +349,20 @@ def run(ctx):
         if j % 40 == 0:
             ctx.sample({"anchor": [case["ax"], case["ay"]], "dh": case["dh"], "extent": [case["nx"], case["ny"]], "active_cells": len(case["cells"]),
                         "flags": case["flags"] is not None, "ctor": case["ctor"]})
+    # structured degenerate shapes: single column / single row / single cell on every anchor, decimal and midpoint-derived origins
+    k = 0
+    for a in ANCHORS:
+        for dh in ("0.1", "0.025", "0.5"):
+            for shape in ((1, 5), (4, 1), (1, 1)):
+                for ctor in ("from_origins", "midpoint"):
+                    k += 1
+                    ci += 1
+                    if not ctx.mine(ci) or (not thorough and k % 3):
+                        continue
+                    nx_, ny_ = shape
+                    case = {"ax": a, "ay": ANCHORS[(k * 7) % len(ANCHORS)], "dh": dh, "nx": nx_, "ny": ny_,
+                            "cells": [(i, j) for i in range(nx_) for j in range(ny_)], "flags": None, "ctor": ctor}
+                    ex_lattice(ctx, case, seed=1000 + k)
     shipped = [("nz_csep_region", None)]
     if thorough:
         shipped += [("nz_csep_region", {"dh_scale": 2}), ("nz_csep_region", {"dh_scale": 4}), ("nz_csep_collection_region", None),
